@@ -140,6 +140,25 @@ pub fn run(outdir: &str, seed: u64, thorough: bool) -> serde_json::Value {
         let vs: Vec<Value> = (0..4).map(|_| sample(&ty, &mut r)).collect();
         laws(&mut st, &a, &tn, &b, &vs, k);
     }
+    // composite targets: a struct into a struct with fewer (wider) fields, a list into a wider list; values that
+    // differ only in a field the target lacks
+    for k in 0..(if thorough { 6000 } else { 400 }) {
+        let mut r = rng.fork();
+        let nf = r.range(2, 3) as usize;
+        let fields: Vec<(String, Ty)> = (0..nf).map(|i| (format!("f{}", i), match r.below(3) { 0 => Ty::Int(vec![(r.range(-5, 0), r.range(1, 9))]), 1 => Ty::Float(vec![(0.0, (r.range(1, 9) as f64) / 2.0)]), _ => Ty::Bool(vec![false, true]) })).collect();
+        let ty = Ty::Struct(fields.clone());
+        let a = to_dt(&ty);
+        let keep = r.range(1, nf as i64 - 1).max(1) as usize;
+        let b = DataType::structured(fields.iter().take(keep).map(|(n, t)| (n.as_str(), to_dt(&widen(t, &mut r)))).collect::<Vec<_>>());
+        // two values equal on the kept fields and different on a dropped one, plus two free samples
+        let v1 = sample(&ty, &mut r);
+        let v2 = { let mut tries = 0; loop { let w = sample(&ty, &mut r); tries += 1;
+            let same_kept = match (&v1, &w) { (Value::Struct(x), Value::Struct(y)) => (0..keep).all(|i| x.field_from_index(i).1 == y.field_from_index(i).1), _ => false };
+            if (same_kept && w != v1) || tries > 40 { break w; } } };
+        let vs = vec![v1, v2, sample(&ty, &mut r), sample(&ty, &mut r)];
+        st.bump("struct_to_narrower_struct_cases");
+        laws(&mut st, &a, "struct with fewer fields", &b, &vs, k + 10);
+    }
     // temporal sources: dates, times, datetimes with sub-second parts, durations; pairs that differ in the last unit
     {
         use chrono::{NaiveDate, NaiveTime, Duration};
